@@ -698,6 +698,11 @@ void DOMLSSerializerImpl::processNode(const DOMNode* const nodeToWrite, int leve
             ensureValidString(nodeToWrite, nodeName);
             ensureValidString(nodeToWrite, nodeValue);
 
+            // "?>" would end the processing instruction early: the node cannot be
+            // written as well-formed XML
+            if (XMLString::patternMatch(nodeValue, gEndPI) != -1)
+                reportError(nodeToWrite, DOMError::DOM_SEVERITY_FATAL_ERROR, XMLDOMMsg::INVALID_CHARACTER_ERR);
+
             if(level == 1 && getFeature(FORMAT_PRETTY_PRINT_1ST_LEVEL_ID))
                 printNewLine();
 
@@ -1167,6 +1172,15 @@ void DOMLSSerializerImpl::processNode(const DOMNode* const nodeToWrite, int leve
                 break;
 
             ensureValidString(nodeToWrite, nodeValue);
+
+            // "--" must not occur in a comment and a comment must not end in "-":
+            // the node cannot be written as well-formed XML
+            {
+                static const XMLCh gDoubleDash[] = { chDash, chDash, chNull };
+                if (XMLString::patternMatch(nodeValue, gDoubleDash) != -1 ||
+                    (lent > 0 && nodeValue[lent - 1] == chDash))
+                    reportError(nodeToWrite, DOMError::DOM_SEVERITY_FATAL_ERROR, XMLDOMMsg::INVALID_CHARACTER_ERR);
+            }
 
             // Figure out if we want pretty-printing for this comment.
             // If this comment node does not have any element siblings
